@@ -25,7 +25,7 @@ LEVEL = 'proof'
 RULE = ('every public method of the live pyipmi.Ipmi class is called (arguments from a recipe table keyed by '
         'parameter name / operation) on a stateless scripted BMC whose OK answers carry non-default values; '
         'then once more per (request position of the fault-free run x completion code of the tier alphabet: '
-        'quick = the 12 codes any handler tests for + 0x83 + 0xCE, thorough = 0x01..0xFF), with that request '
+        'quick = the 12 codes any handler tests for + 0x83 + 0xCE + the band edges 01/7E/7F/BE/BF/D6/D7/FE of table 5-2, thorough = 0x01..0xFF), with that request '
         'answered by the bare code (sampled: code + payload); double faults: at every later position of every '
         'run that recovered, plus seeded pairs.  Oracle = the property: CompletionCodeError with that code, '
         'RetryError, HpmError, or the fault-free result AND evidence of a retry/adaptation in the request trace. '
@@ -47,7 +47,10 @@ TRUSTED = ['harness/translate/api.py', 'harness/translate/registry.py', 'harness
 
 WORK = os.path.join(repo.VERIF, '.work', 'c08')
 
-QUICK_CODES = [0x80, 0x81, 0xC0, 0xC3, 0xC5, 0xC8, 0xC9, 0xCA, 0xCB, 0xCC, 0xD5, 0xFF, 0x83, 0xCE]
+QUICK_CODES = [0x80, 0x81, 0xC0, 0xC3, 0xC5, 0xC8, 0xC9, 0xCA, 0xCB, 0xCC, 0xD5, 0xFF, 0x83, 0xCE,
+               # one or two codes of every band of IPMI v2.0 table 5-2 that no handler names: device-specific
+               # (01h-7Eh), the unassigned 7Fh and BFh, command-specific upper end, the unassigned D7h-FEh
+               0x01, 0x7E, 0x7F, 0xBE, 0xBF, 0xD6, 0xD7, 0xFE]
 LIB_ERRORS = ('CompletionCodeError', 'RetryError', 'HpmError')
 # operations that hand the response (or the raw bytes) to the caller, completion code included
 PRIMITIVES = ('send_message', 'raw_command')
